@@ -63,7 +63,9 @@ func runAll(c *fw.Ctx, srcs []string, noRef bool) ([]obs, []string) {
 	return res, bad
 }
 
-// judge compares an observation with the prediction; "" = as predicted.
+// judge compares an observation with the prediction; "" = as predicted. The failure
+// modes are coarse on purpose: one root cause shows up as an error, a wrong value or a
+// silently truncated output depending on the surrounding expression.
 func judge(k *kase, want string, o obs, childBad string) string {
 	if childBad != "" {
 		if strings.HasPrefix(childBad, "timeout") {
@@ -78,10 +80,8 @@ func judge(k *kase, want string, o obs, childBad string) string {
 			return ""
 		case o.Panic != "":
 			return "panic out of Eval"
-		case o.Err != "":
-			return "evaluated: run-time error after output"
 		}
-		return "accepted and ran"
+		return "not rejected" // accepted and ran, or failed only at run time after output
 	}
 	good := o.Err == "" && o.Panic == "" && o.Out == want
 	if good || (k.Res.Lim && rejected) {
@@ -90,16 +90,25 @@ func judge(k *kase, want string, o obs, childBad string) string {
 	switch {
 	case o.Panic != "":
 		return "panic out of Eval"
-	case o.Err != "" && o.Out == "":
+	case rejected:
 		return "rejected"
-	case o.Err != "":
-		return "run-time error after output"
-	case o.Out == "" || !strings.HasPrefix(want, o.Out) && !strings.HasPrefix(o.Out, "start\n"):
-		return "no output"
-	case len(o.Out) < len(want) && strings.HasPrefix(want, o.Out):
-		return "output stops early"
 	}
-	return "wrong value or type"
+	return "wrong output" // wrong value or type, output that stops early, run-time error after output
+}
+
+// sameLines compares the model's predicted output with the reference's, line by line;
+// "?" in the reference matches anything
+func sameLines(want, ref string) bool {
+	w, r := strings.Split(want, "\n"), strings.Split(ref, "\n")
+	if len(w) != len(r) {
+		return false
+	}
+	for i := range w {
+		if r[i] != "?" && r[i] != w[i] {
+			return false
+		}
+	}
+	return true
 }
 
 func has(l []string, s string) bool {
@@ -157,35 +166,93 @@ func (k *kase) tags() []string {
 	return r
 }
 
+// Triggers of the listed findings (the text is matched against known-findings entries).
+const (
+	tReturn     = "untyped constant used in a return statement whose value the result type cannot represent, or an integer constant beyond int64"
+	tArrayLen   = "array length given by a constant that is negative, fractional, beyond int, or an untyped floating-point constant"
+	tCmpOther   = "untyped constant not representable in the type of the other operand of a comparison"
+	tDeclBin    = "typed declaration or assignment whose value is a binary constant expression: the declared type must apply to the result, not to the operands"
+	tWindow     = "untyped constant outside a signed integer type of width w<64 whose magnitude still fits in w bits, converted to that type"
+	tTyped      = "operation or conversion on typed constant operands whose exact result the result type cannot represent"
+	tNegShift   = "constant shift with a negative typed constant count"
+	tQuoSkip    = "quotient of a typed constant and an untyped constant the type cannot represent"
+	tCmpInex    = "comparison of untyped constants one of which its default type cannot hold exactly"
+	tCmpRight   = "comparison of untyped constants whose right operand is a parenthesised or compound expression"
+	tLenComp    = "len of a compound constant string expression used as an operand of an operator or conversion"
+	tFltShift   = "shift of an untyped floating-point constant used as an operand (the result must be an untyped integer constant)"
+	tLogicConv  = "|| or && whose left operand is a bool(...) conversion and whose right operand contains a comparison or a logical operator"
+	tShiftTyped = "shift of an untyped constant by a typed constant count, used as an operand"
+	tQuoRune    = "quotient of an untyped rune constant and an untyped integer constant"
+	tFloatInt   = "untyped floating-point constant that float64 cannot hold exactly, converted to an integer type"
+	tStrWide    = "integer constant outside the int32 range converted to string"
+)
+
 // trigger computes the signature of a failing case from the model-level case only.
 // Predicates are ordered from the most specific root cause to the generic description.
 func (k *kase) trigger(neutralOK bool) string {
+	declCtx := func(s string) bool {
+		return s == "constdecl" || s == "vardecl" || s == "assign" || s == "opassign"
+	}
 	if k.Res.St == "reject" {
 		w := k.why()
 		kc := kindClass(w.Kind)
 		win := strings.HasSuffix(w.Mag, "w") && !strings.HasSuffix(w.Mag, "w64") // |v| < 2^width
 		switch {
 		case w.Site == "return":
-			return "untyped constant not representable in the result type, used in a return statement"
+			return tReturn
 		case w.Site == "arraylen":
-			return "array length constant that is " + w.Reason + " (" + w.Opnd + ")"
+			return tArrayLen
 		case w.Site == "cmp-var" || w.Site == "implicit-cmp":
-			return "untyped constant not representable in the type of the other operand of a comparison (" + w.Reason + ")"
+			return tCmpOther
+		case declCtx(w.Site) && w.Root == "bin":
+			return tDeclBin
 		case w.Opnd == "untyped" && w.Reason == "overflow" && kc == "signed w<64" && win:
-			return "untyped constant outside a signed integer type of width w<64 whose magnitude still fits in w bits, converted to that type"
+			return tWindow
+		case w.Reason == "negshift" && w.Opnd == "typed":
+			return tNegShift
 		case w.Opnd == "typed" && (w.Site == "arith" || w.Site == "unary" || w.Site == "shift" || w.Site == "conv"):
-			return "operation on typed constant operands whose exact result is not representable in the result type (" + w.Reason + ")"
+			return tTyped
+		case w.Site == "implicit-arith" && k.rootOp() == "/":
+			return tQuoSkip
+		case has(k.tags(), "shift-typed-count"):
+			return tShiftTyped
 		}
-		return fmt.Sprintf("reject: %s at %s, %s operand, target %s, magnitude %s", w.Reason, w.Site, w.Opnd, kc, w.Mag)
+		return fmt.Sprintf("reject: %s at %s (root %s), %s %s operand, target %s, magnitude %s", w.Reason, w.Site, w.Root, w.Opnd, w.Cls, kc, w.Mag)
 	}
+	return k.acceptTriggers(neutralOK)[0]
+}
+
+// every listed root cause an accepted case exposes, most specific first; the generic
+// description comes last
+func (k *kase) acceptTriggers(neutralOK bool) []string {
 	tags := k.tags()
-	switch {
-	case has(tags, "cmp-inexact"):
-		return "comparison of untyped constants one of which its default type cannot hold exactly"
-	case k.inexact() && neutralOK:
-		return "comparison of untyped constants one of which its default type cannot hold exactly"
+	var r []string
+	add := func(c bool, t string) {
+		if c && !has(r, t) {
+			r = append(r, t)
+		}
 	}
-	return "accept: " + k.features()
+	add(has(tags, "cmp-inexact"), tCmpInex)
+	add(k.inexact() && neutralOK, tCmpInex)
+	add(has(tags, "arraylen-float"), tArrayLen)
+	add(k.Ctx == "return" && has(tags, "src-beyond-int64"), tReturn)
+	add(has(tags, "decl-type-on-operands"), tDeclBin)
+	add(has(tags, "float-inexact-to-int"), tFloatInt)
+	add(has(tags, "len-compound-operand"), tLenComp)
+	add(has(tags, "cmp-right-compound"), tCmpRight)
+	add(has(tags, "shift-typed-count"), tShiftTyped)
+	add(has(tags, "shift-of-float"), tFltShift)
+	add(has(tags, "quo-rune-int"), tQuoRune)
+	add(has(tags, "string-of-wide-int"), tStrWide)
+	add(has(tags, "logic-conv-left"), tLogicConv)
+	return append(r, "accept: "+k.features())
+}
+
+func (k *kase) rootOp() string {
+	if n := len(k.Toks); n > 0 && k.Toks[n-1].K == "bin" {
+		return k.Toks[n-1].O
+	}
+	return ""
 }
 
 func (k *kase) inexact() bool {
@@ -245,6 +312,14 @@ func (k *kase) features() string {
 	return s + " {" + strings.Join(r, " ") + "} -> " + k.Res.C.Class + "/" + kindClass(k.Res.C.Typ)
 }
 
+func isCmp(o string) bool {
+	switch o {
+	case "==", "!=", "<", "<=", ">", ">=":
+		return true
+	}
+	return false
+}
+
 func (k *kase) nontrivial() bool {
 	return k.Tier != "expr" || len(k.Toks) > 1
 }
@@ -284,11 +359,8 @@ func check(c *fw.Ctx, all []kase) error {
 			case !wantReject && o.RefErr != "":
 				c.SpecError("specification accepts but go/types says %q:\n%s", o.RefErr, p.Src)
 				continue
-			case !wantReject && o.RefBad != "":
-				c.SpecError("specification predicts a value go/constant does not confirm (%s):\n%s", o.RefBad, p.Src)
-				continue
-			case !wantReject && strings.Join(o.RefTypes, ",") != strings.Join(p.PTypes, ","):
-				c.SpecError("specification predicts types %v, go/types says %v:\n%s", p.PTypes, o.RefTypes, p.Src)
+			case !wantReject && !sameLines(p.Want, o.RefOut):
+				c.SpecError("specification predicts output %q, go/types + go/constant predict %q:\n%s", p.Want, o.RefOut, p.Src)
 				continue
 			}
 		}
@@ -320,7 +392,7 @@ func check(c *fw.Ctx, all []kase) error {
 		no, nbad := runAll(c, nsrc, false)
 		for x, i := range nidx {
 			k := &all[i]
-			if nbad[x] == "" && no[x].RefErr == "" && no[x].RefBad == "" && judge(k, progs[i].NWant, no[x], nbad[x]) == "" {
+			if nbad[x] == "" && no[x].RefErr == "" && sameLines(progs[i].NWant, no[x].RefOut) && judge(k, progs[i].NWant, no[x], nbad[x]) == "" {
 				neutralOK[i] = true
 			}
 		}
@@ -330,6 +402,19 @@ func check(c *fw.Ctx, all []kase) error {
 	for _, f := range fails {
 		k := &all[f.i]
 		trig := k.trigger(neutralOK[f.i])
+		// several hazards: attribute the failure to the first one listed with this mode
+		cands := []string{trig}
+		if k.Res.St != "reject" {
+			cands = k.acceptTriggers(neutralOK[f.i])
+		} else if has(k.tags(), "shift-typed-count") {
+			cands = append(cands, tShiftTyped)
+		}
+		for _, t := range cands {
+			if c.IsKnown(t, f.mode) {
+				trig = t
+				break
+			}
+		}
 		c.DisagreeChk++
 		sig := trig + " / " + f.mode
 		sigs[sig] = append(sigs[sig], f.i)
@@ -353,7 +438,7 @@ func check(c *fw.Ctx, all []kase) error {
 		i := sigs[s][0]
 		k, p, o := &all[i], progs[i], obss[i]
 		parts := strings.SplitN(s, " / ", 2)
-		rep := map[string]any{"tier": k.Tier, "ctx": k.Ctx, "kind": k.Kind, "toks": k.Toks, "lits": k.Lits, "place": k.Place,
+		rep := map[string]any{"tier": k.Tier, "ctx": k.Ctx, "kind": k.Kind, "toks": k.Toks, "lits": k.Lits, "place": k.Place, "obs": k.Obs,
 			"specs": k.Specs, "vals": k.Vals, "res": k.Res,
 			"program": p.Src, "expected_stdout": p.Want, "observed": o, "same_signature": len(sigs[s])}
 		if x < len(natRes) {
